@@ -460,6 +460,18 @@ func c06Program(p *prog, steps int) {
 			for i := range keys {
 				keys[i] = pickKey()
 			}
+			if len(o.M) > 0 && r.Chance(1, 5) {
+				// a key that is a list of existing keys, a pattern, or an existing key with something around it: a key of its own
+				var have []string
+				for key := range o.M {
+					have = append(have, key)
+				}
+				sort.Strings(have)
+				a, b := have[r.Intn(len(have))], have[r.Intn(len(have))]
+				sep := []string{",", ", ", " ", ";", "|", "/", "\n", "\x00", "+"}[r.Intn(9)]
+				keys[0] = []string{a + sep + b, a + sep, sep + a, "*", a + "*", "[" + a + "]", strings.ToUpper(a), " " + a, a + " "}[r.Intn(9)]
+				p.c.Count("unset_of_keys_made_of_existing_keys")
+			}
 			given := append([]string{}, keys...)
 			p.step("Unset", fmt.Sprintf("%s.Unset(%q)", o.Name(), keys), false, func() {
 				for _, key := range keys {
